@@ -41,9 +41,14 @@ def navigate(root, path):
     return n
 
 
+_RULES = {}
+
+
 def replay(c):
-    rules = {(n, o): r for n, o, r in rewrite.rules()}
-    rule = rules[(c["rule"], c["opt"])]
+    # one set of rule objects per worker process, reused across thousands of instances (as a long-running agent does)
+    if not _RULES:
+        _RULES.update({(n, o): r for n, o, r in rewrite.rules()})
+    rule = _RULES[(c["rule"], c["opt"])]
     tree = build_json(c["inp"])
     node = navigate(tree, c["path"])
     ev = {"c": c, "applicable": False, "outcome": "ok", "res": {"k": "c", "n": 0, "d": 1}}
